@@ -179,10 +179,12 @@ func randUTF8(r *prng.R, n int) []byte {
 		switch {
 		case r.Chance(85) || n-len(b) < 4:
 			b = append(b, byte(32+r.Intn(95)))
+		case r.Chance(40):
+			b = append(b, []byte("é")...) // 2 bytes
 		case r.Chance(50):
-			b = append(b, []byte("é")...)
+			b = append(b, []byte("€")...) // 3 bytes
 		default:
-			b = append(b, []byte("€")...)
+			b = append(b, []byte("😀")...) // 4 bytes
 		}
 	}
 	for !utf8.Valid(b) {
@@ -254,6 +256,13 @@ func (d *Desc) randLenBytes(r *prng.R, dst reflect.Value) sx.V {
 		n = 1
 	}
 	b := r.Bytes(n)
+	if r.Chance(60) {
+		// text with multi-byte runes: the length prefix counts bytes, not characters
+		b = randUTF8(r, n)
+		if r.Chance(30) && n >= 4 {
+			b = []byte(strings.Repeat("я", n/2))
+		}
+	}
 	dst.SetString(string(b))
 	return tag("bits", sx.Bits(bytesBits(b)))
 }
